@@ -1,6 +1,6 @@
 (* C16 — UpdateStakingParams applies exactly the given, valid parameters. *)
 From stdpp Require Import gmap.
-Require Import Model.Base Model.Validate Model.State Model.Staking Model.Slashing Model.Poa proofs.L1Basic.
+Require Import Model.Base Model.Validate Model.State Model.Staking Model.Slashing Model.Poa Model.App proofs.L1Basic proofs.InvElig proofs.InvMsgs proofs.InvTop.
 
 Theorem C16_applies_exactly : forall c p c',
   msg_update_params c admin_id p = MOk c' ->
@@ -22,3 +22,16 @@ Theorem C16_validity_meaning : forall p,
   0 < sp_unbonding_time p /\ sp_max_validators p <> 0 /\ sp_max_entries p <> 0 /\ sp_bond_denom_ok p = true /\
   exists r, sp_min_commission p = Some r /\ 0 <= r <= dec_one.
 Proof. exact params_validate_spec. Qed.
+
+(* "no other effect than those parameters imply under x/staking's rules": the message itself changes the parameters only;
+   what a lower cap implies is decided by the EndBlocker of the same block, which keeps exactly the max_validators
+   strongest entries of the power index — for any store satisfying the chain invariant, any cap, any number of validators *)
+Theorem C16_lower_cap_keeps_the_strongest : forall c c' upd,
+  CI c -> staking_end_block c = EBOk c' upd ->
+  (forall id, last_pow (stk c') !! id = top_power id (selected c)) /\
+  Z.of_nat (length (selected c)) <= Z.max 0 (sp_max_validators (params (stk c))) /\
+  (forall p id q j, In (p, id) (selected c) -> In (q, j) (pidx (stk c)) -> 0 < q -> ~ In (q, j) (selected c) -> q <= p).
+Proof.
+  intros c c' upd HCI H. split; [exact (staking_end_block_top c c' upd HCI H)|]. split; [exact (proj2 (selected_spec c HCI))|].
+  intros p id q j. apply selection_takes_the_strongest.
+Qed.
